@@ -605,8 +605,17 @@ func (x *Exec) markDone(rec *StepRecord, success bool) {
 			order = append(order, "")
 		}
 	}
+	// a package in which a generator callback failed, panicked or rendered garbage was not generated,
+	// whatever Execute made of it
+	failedIn := map[string]bool{}
+	for _, e := range rec.Resp.Events {
+		switch e.Fault {
+		case "gen-error", "gen-panic", "gen-unparseable":
+			failedIn[e.Pkg] = true
+		}
+	}
 	for i, p := range order {
-		if p == "" {
+		if p == "" || failedIn[p] {
 			continue
 		}
 		if success || i+1 < len(order) {
